@@ -752,7 +752,9 @@ def _finish_result(st, o, obj, ha, arr, valid, inexact, vdims=None, mapping=None
         if got.shape != arr.shape:
             raise Violation("result.array", f"{o['op']} {o.get('f', '')}: result shape {got.shape}, numpy gives {arr.shape}", preds=[o.get("f", "")], kind="value")
         if inexact:
-            ok = np.isclose(got, arr, rtol=1e-12, atol=0, equal_nan=True) | ((got == arr))
+            ok = np.isclose(got, arr, rtol=1e-12, atol=0, equal_nan=True) | ((got == arr)) | ((got != got) & (arr != arr))
+            if arr.dtype.kind == "c":
+                ok = ok | ~np.isfinite(arr)  # complex overflow: inf/nan parts combine differently between equivalent formulas
         else:
             ok = (got == arr) | ((got != got) & (arr != arr))
         if not np.all(ok):
@@ -876,7 +878,9 @@ def op_vecop(st, o):
         got = np.asarray(obj.array)
         mag = (np.abs(a * b)).sum(axis=-1, keepdims=True)
         with np.errstate(all="ignore"):
-            ok = (np.abs(got - arr) <= 1e-12 * mag) | ((got != got) & (arr != arr)) | (got == arr)
+            # cells where the model's own sum overflows to inf/nan are not judged: how infinities and NaNs of
+            # complex products combine differs between einsum and the plain sum of products
+            ok = (np.abs(got - arr) <= 1e-12 * mag) | ((got != got) & (arr != arr)) | (got == arr) | ~np.isfinite(arr)
         if got.shape != arr.shape or not ok.all():
             idx = tuple(int(i) for i in np.argwhere(~ok)[0]) if got.shape == arr.shape else None
             raise Violation("result.array", f"dot: result at {idx} differs from the sum of component products", preds=["dot"], kind="value")
